@@ -12,6 +12,8 @@
 //	rem1   sender= cp=<denom> min=<amt>:<denom> lpt=<amt> deadline=
 //	donate from= to= coin=<amt>:<denom>
 //	params auth= fee= tax= ufee= pcf=<amt>:<denom>
+//	export                        (real ExportGenesis in its own order + ValidateGenesis verdict)
+//	reimport                      (wipe the module store, InitGenesis(ExportGenesis(state)))
 //	price_in  x= y= dx= fee=      (pure: keeper.GetInputPrice)
 //	price_out x= y= dy= fee=      (pure: keeper.GetOutputPrice)
 //
@@ -31,6 +33,7 @@ import (
 	"time"
 
 	sdkmath "cosmossdk.io/math"
+	storetypes "cosmossdk.io/store/types"
 	sdk "github.com/cosmos/cosmos-sdk/types"
 	authtypes "github.com/cosmos/cosmos-sdk/x/auth/types"
 	banktypes "github.com/cosmos/cosmos-sdk/x/bank/types"
@@ -190,6 +193,17 @@ func (r *R) state(ctx sdk.Context) string {
 		hx.Dash(strings.Join(pools, ",")), hx.Dash(strings.Join(bals, ",")), hx.Dash(strings.Join(sups, ",")))
 }
 
+// genesisLine renders the real exported genesis in its own order.
+func (r *R) genesisLine(gs cstypes.GenesisState) string {
+	var pools []string
+	for _, p := range gs.Pool {
+		pools = append(pools, fmt.Sprintf("%s;%s;%s;%s;%s", p.Id, p.StandardDenom, p.CounterpartyDenom, r.sym(p.EscrowAddress), p.LptDenom))
+	}
+	q := gs.Params
+	return fmt.Sprintf("seq=%d std=%s fee=%s tax=%s ufee=%s pcf=%s pools=%s", gs.Sequence, gs.StandardDenom, q.Fee.BigInt().String(),
+		q.TaxRate.BigInt().String(), q.UnilateralLiquidityFee.BigInt().String(), coinStr(q.PoolCreationFee), hx.Dash(strings.Join(pools, "|")))
+}
+
 // ---------------------------------------------------------------- reset
 
 var feeChoices = []string{"3000000000000000", "1", "999999999999999999", "500000000000000000", "100000000000000000", "2500000000000000", "999999999999999"}
@@ -334,6 +348,30 @@ func (r *R) Exec(ctx sdk.Context, line string) (sdk.Context, string) {
 	case "block":
 		ctx = hx.WithBlock(ctx, ctx.BlockHeight()+1, time.Unix(0, i64(a["t"])).UTC())
 		return ctx, "ok e=- resp=- " + r.state(ctx)
+	case "export":
+		gs := r.env.Coinswap.ExportGenesis(ctx)
+		v := "ok"
+		if err := cstypes.ValidateGenesis(gs); err != nil {
+			v = "err"
+		}
+		return ctx, fmt.Sprintf("ok validate=%s %s", v, r.genesisLine(gs))
+	case "reimport":
+		gs := r.env.Coinswap.ExportGenesis(ctx)
+		class, _ := hx.Try(ctx, func(c sdk.Context) error {
+			st := c.KVStore(r.env.App.UnsafeFindStoreKey(cstypes.StoreKey))
+			it := storetypes.KVStorePrefixIterator(st, nil)
+			var keys [][]byte
+			for ; it.Valid(); it.Next() {
+				keys = append(keys, append([]byte{}, it.Key()...))
+			}
+			it.Close()
+			for _, k := range keys {
+				st.Delete(k)
+			}
+			r.env.Coinswap.InitGenesis(c, gs)
+			return nil
+		})
+		return ctx, fmt.Sprintf("%s e=- resp=- %s", class, r.state(ctx))
 	case "price_in":
 		return ctx, tryPrice(func() sdkmath.Int {
 			return cskeeper.GetInputPrice(hx.MustInt(a["dx"]), hx.MustInt(a["x"]), hx.MustInt(a["y"]), dec(a["fee"]))
